@@ -4,6 +4,7 @@ import (
 	"bytes"
 	"compress/flate"
 	"crypto/ecdsa"
+	"crypto/sha1"
 	"encoding/base64"
 	"fmt"
 	"io"
@@ -43,6 +44,49 @@ type mwDeployConf struct {
 	SameSite        int    `json:"cookie_same_site,omitempty"` // http.SameSite value (0: unset)
 	EntityID        string `json:"entity_id,omitempty"`
 	ReqCtx          bool   `json:"requested_authn_context,omitempty"`
+	// ArtifactBinding: samlsp.Options.UseArtifactResponse; the IdP may then bring the browser back with GET acs?SAMLart=..&RelayState=..
+	// and the SP fetches the response over its back-channel (mwResolver)
+	ArtifactBinding bool `json:"use_artifact_response,omitempty"`
+}
+
+// mwResolver is the IdP's artifact resolution service as the SP's HTTP client sees it: the artifact's message handle names
+// the response; the ArtifactResponse answers the ArtifactResolve it was sent.
+type mwResolver struct {
+	byHandle map[string][]byte // message handle (hex) -> Response document
+}
+
+func (t *mwResolver) artifactFor(n int, doc []byte) string {
+	b := make([]byte, 44)
+	b[1] = 4
+	sum := sha1.Sum([]byte(idpEntity))
+	copy(b[4:24], sum[:])
+	copy(b[24:], fmt.Sprintf("handle-%013d", n))
+	if t.byHandle == nil {
+		t.byHandle = map[string][]byte{}
+	}
+	t.byHandle[string(b[24:])] = doc
+	return base64.StdEncoding.EncodeToString(b)
+}
+
+func (t *mwResolver) RoundTrip(r *http.Request) (*http.Response, error) {
+	body, _ := io.ReadAll(r.Body)
+	doc := etree.NewDocument()
+	_ = doc.ReadFromBytes(body)
+	id, handle := "", ""
+	if ar := doc.FindElement("//ArtifactResolve"); ar != nil {
+		id = ar.SelectAttrValue("ID", "")
+		if a := ar.FindElement("./Artifact"); a != nil {
+			if raw, err := base64.StdEncoding.DecodeString(strings.TrimSpace(a.Text())); err == nil && len(raw) == 44 {
+				handle = string(raw[24:])
+			}
+		}
+	}
+	inner := etree.NewDocument()
+	if d, ok := t.byHandle[handle]; !ok || inner.ReadFromBytes(d) != nil || inner.Root() == nil {
+		return &http.Response{StatusCode: 404, Status: "404 Not Found", Body: io.NopCloser(strings.NewReader("no such artifact")), Header: http.Header{}, Request: r}, nil
+	}
+	out := wrapArtifactResponse(inner.Root(), "id-art-"+id, id, idpEntity, saml.StatusSuccess, time.Now(), nil)
+	return &http.Response{StatusCode: 200, Status: "200 OK", Body: io.NopCloser(bytes.NewReader(out)), Header: http.Header{}, Request: r}, nil
 }
 
 func (c mwDeployConf) defaultRedirect() string {
@@ -71,17 +115,18 @@ type appHit struct {
 }
 
 type mwDeploy struct {
-	conf    mwDeployConf
-	base    string
-	mw      *samlsp.Middleware
-	handler http.Handler
-	hits    []appHit
-	gated   []appHit // hits on the attribute-gated handler
-	nested  []appHit // hits on a handler that sits behind ANOTHER deployment's RequireAccount and then this one's
-	mux     *http.ServeMux
-	rsCount int
-	kp      KeyPair
-	record  func(dst *[]appHit) http.Handler
+	conf     mwDeployConf
+	base     string
+	mw       *samlsp.Middleware
+	handler  http.Handler
+	hits     []appHit
+	gated    []appHit // hits on the attribute-gated handler
+	nested   []appHit // hits on a handler that sits behind ANOTHER deployment's RequireAccount and then this one's
+	mux      *http.ServeMux
+	rsCount  int
+	kp       KeyPair
+	record   func(dst *[]appHit) http.Handler
+	resolver *mwResolver
 }
 
 func (d *mwDeploy) acs() string { return d.base + "/saml/acs" }
@@ -112,7 +157,11 @@ func newMWDeploy(c mwDeployConf, idpMD *saml.EntityDescriptor, gateAttr, gateVal
 	}
 	opts := samlsp.Options{URL: mustURL(d.base + "/"), Key: d.kp.Key, Certificate: d.kp.Cert, IDPMetadata: idpMD,
 		CookieName: c.CookieName, AllowIDPInitiated: c.AllowIDP, DefaultRedirectURI: c.DefaultRedirect, SignRequest: c.SignRequest, ForceAuthn: c.ForceAuthn,
-		CookieSameSite: http.SameSite(c.SameSite), EntityID: c.EntityID}
+		CookieSameSite: http.SameSite(c.SameSite), EntityID: c.EntityID, UseArtifactResponse: c.ArtifactBinding}
+	if c.ArtifactBinding {
+		d.resolver = &mwResolver{}
+		opts.HTTPClient = &http.Client{Transport: d.resolver}
+	}
 	if c.ReqCtx {
 		opts.RequestedAuthnContext = &saml.RequestedAuthnContext{Comparison: "exact", AuthnContextClassRef: "urn:oasis:names:tc:SAML:2.0:ac:classes:PasswordProtectedTransport"}
 	}
